@@ -185,7 +185,7 @@ def run_c14(ctx):
 
 def run_c16(ctx):
     devs = known_devs()
-    allsets = ["s1", "s2", "s3", "s4", "s5", "s6", "s7", "s8", "s9", "s10", "s11", "s12", "s13", "s14"]
+    allsets = ["s1", "s2", "s3", "s4", "s5", "s6", "s7", "s8", "s9", "s10", "s11", "s12", "s13", "s14", "s15", "s16"]
     # quick: the 6-definition set s8 and the 5-definition sets dominate the cost; permutations are thinned below
     # quick: every set, every extend-move and every cut pattern stays represented; the arrangements replayed are thinned
     keep = (lambda i: i % 8 == ctx.seed % 8) if ctx.tier == "quick" else None
